@@ -34,6 +34,17 @@ def lem(name, src, harness, sub, assumes, defs=None, unwind=8, leak=True, kind='
 # 1. Authorization parsing ; the two bstr_free of htp_tx_destroy_incomplete
 # ======================================================================================================================
 AUTH_H = r'''
+/* Stand-in for htp_base64_decode_mem (htp_base64.c is NOT linked here: its Duff's-device decoder loop does not unwind in
+ * reasonable time).  Same allocation pattern as the real one: scratch buffer of len bytes, result = NULL or an
+ * inline bstr of 1..len arbitrary bytes made by the real bstr_dup_mem, scratch freed. */
+bstr *htp_base64_decode_mem(const void *data, size_t len) {
+  VASSERT(__CPROVER_r_ok(data, len), "base64 input readable");
+  unsigned char *tmp = malloc(len); if (tmp == NULL) return NULL;
+  size_t rl; bstr *r = NULL;
+#define D(k) if (rl == (k) && (k) <= len) r = bstr_dup_mem(tmp, (k));
+  D(1) D(2) D(3) D(4)
+  free(tmp); return r;
+}
 static void auth_case(size_t n, const unsigned char *a) {          /* n is a constant at every call site */
   htp_connp_t *c = calloc(1, sizeof(*c)); htp_tx_t *tx = calloc(1, sizeof(*tx)); htp_header_t *h = calloc(1, sizeof(*h));
   bstr *v = c18_bstr(n, a);
@@ -59,9 +70,114 @@ void HARNESS(void) { size_t n; unsigned char in[AUTHN];
   VASSUME(n >= AUTHMIN && n <= AUTHN);
   CASES
   CANARY(); }'''
-lem('c18_auth_basic', ['htp_parsers.c'], AUTH_H.replace('CASES', cases('C', 5, 14)).replace('AUTH_FN', 'htp_parse_authorization_basic'),
+lem('c18_auth_basic', ['htp_parsers.c'], AUTH_H.replace('CASES', cases('C', 5, 9)).replace('AUTH_FN', 'htp_parse_authorization_basic'),
     'htp_parse_authorization_basic ; bstr_free(username) ; bstr_free(password): no double free / leak whichever of the four allocations fails (base64 scratch, decoded bstr, username, password)',
-    ['header value: every byte string of length 5..14 ("Basic" + up to 9 bytes = up to 6 decoded bytes); value lengths are enumerated constants; shorter values are excluded by the caller htp_parse_authorization (prefix test)',
-     'real htp_base64.c and bstr.c linked',
+    ['header value: every byte string of length 5..9 ("Basic" + up to 4 bytes); value lengths are enumerated constants; shorter values are excluded by the caller htp_parse_authorization (prefix test)',
+     'htp_base64_decode_mem replaced by a stand-in with the same allocation pattern and an ARBITRARY decoded string of 0..4 bytes (not longer than its input) (superset of what base64 can produce); real bstr.c linked; the real decoder is exercised by unit c18_base64_decode_mem',
      'KNOWN_F_C18_AUTH_BASIC: the harness NULLs request_auth_username after an HTP_ERROR return (finding c18_auth_basic); everything else is checked'],
-    defs={'AUTHN': 14, 'AUTHMIN': 5, 'AUTH_BASIC': 1, 'KNOWN_F_C18_AUTH_BASIC': 1}, link=['bstr.c', 'htp_base64.c'], unwind=16)
+    defs={'AUTHN': 9, 'AUTHMIN': 5, 'AUTH_BASIC': 1, 'KNOWN_F_C18_AUTH_BASIC': 1}, link=['bstr.c'], unwind=16)
+
+# ======================================================================================================================
+# 2. host[:port] parsing ; htp_uri_free (CONNECT target) / the caller's frees (Host header)
+# ======================================================================================================================
+HP_COMMON = ''
+RC_VALIDATE = ['--replace-calls', 'htp_validate_hostname:c18_validate_hostname']
+URI_HP_H = HP_COMMON + r'''
+static void hp_case(const unsigned char *a) {
+  htp_connp_t *c = calloc(1, sizeof(*c)); htp_tx_t *tx = calloc(1, sizeof(*tx));
+  bstr *in = c18_bstr(HPN, a); htp_uri_t *uri = htp_uri_alloc();             /* tx->parsed_uri_raw as made by htp_tx_create */
+  if (!c || !tx || !in || !uri) { free(c); free(tx); free(in); htp_uri_free(uri); return; }
+  c->in_tx = tx; tx->connp = c;
+  int rc = htp_parse_uri_hostport(c, in, uri);                                 /* htp_tx_state_request_line, CONNECT branch */
+  VASSERT(rc == HTP_OK || rc == HTP_ERROR, "OK or ERROR");
+  if (rc == HTP_ERROR) VASSERT(uri->port == NULL, "ERROR: no port text is handed out");
+#ifdef KNOWN_F_C18_HOSTPORT
+  /* finding c18_hostport: a failed port allocation frees *hostname but leaves the stale pointer in uri->hostname */
+  if (rc == HTP_ERROR) uri->hostname = NULL;
+#endif
+  htp_uri_free(uri);                                                          /* htp_tx_destroy_incomplete: htp_uri_free(tx->parsed_uri_raw) */
+  free(in); free(tx); free(c);
+}
+void HARNESS(void) { unsigned char in[HPN]; hp_case(in); CANARY(); }'''
+HPA = ['input: every byte string of length exactly HPN=5 (shorter ones = white-space padded, trimmed first): covers the IPv6 branch with and without port, host:port, host alone, empty',
+       'real bstr.c linked; memchr: textbook model (CBMC 6.11 has none); htp_validate_hostname (pure, no allocation) exchanged at its call sites (goto-instrument --replace-calls) by a stand-in that requires a live bstr and answers arbitrarily']
+lem('c18_uri_hostport', ['htp_util.c'], URI_HP_H,
+    'htp_parse_uri_hostport(connp, target, tx->parsed_uri_raw) ; htp_uri_free: no double free / use after free / leak whichever allocation (host name, port text) fails',
+    HPA + ['KNOWN_F_C18_HOSTPORT: the harness NULLs uri->hostname after an HTP_ERROR return (finding c18_hostport); everything else is checked'],
+    defs={'HPN': 5, 'C18_MEMCHR_MODEL': 1, 'C18_VALIDATE_HOSTNAME_STUB': 1, 'KNOWN_F_C18_HOSTPORT': 1}, link=['bstr.c'], unwind=8, pre_instrument=RC_VALIDATE)
+HDR_HP_H = HP_COMMON + r'''
+static void hp_case(const unsigned char *a, int want_port) {
+  bstr *in = c18_bstr(HPN, a); if (in == NULL) return;
+  bstr *hostname = in, *port = in; int pn; uint64_t flags;                       /* junk values that must not survive */
+  htp_status_t rc = htp_parse_header_hostport(in, &hostname, want_port ? &port : NULL, &pn, &flags);
+  VASSERT(rc == HTP_OK || rc == HTP_ERROR, "OK or ERROR");
+  /* the caller (htp_tx_process_request_headers) returns on ERROR without touching its locals, and owns the strings on OK */
+  if (rc == HTP_OK) { bstr_free(hostname); if (want_port) bstr_free(port); }
+  free(in);
+}
+void HARNESS(void) { unsigned char in[HPN]; int want_port; hp_case(in, want_port); CANARY(); }'''
+lem('c18_header_hostport', ['htp_util.c'], HDR_HP_H,
+    'htp_parse_header_hostport ; caller teardown (nothing on ERROR, both strings on OK), with and without the port out-parameter: on ERROR nothing is left allocated and nothing the caller must free; no double free / leak',
+    HPA, defs={'HPN': 5, 'C18_MEMCHR_MODEL': 1, 'C18_VALIDATE_HOSTNAME_STUB': 1}, link=['bstr.c'], unwind=8, pre_instrument=RC_VALIDATE)
+
+# ======================================================================================================================
+# 3. htp_conn_create ; htp_conn_open ; htp_conn_destroy
+# ======================================================================================================================
+CONN_H = r'''
+void htp_tx_destroy_incomplete(htp_tx_t *tx) { VASSERT(0, "a connection without transactions destroys no transaction"); }
+void HARNESS(void) {
+  htp_conn_t *conn = htp_conn_create();                     /* real: two real lists */
+  if (conn != NULL) {
+    char ca[4], sa[4]; int has_c, has_s, has_ts, cp, sp; htp_time_t ts;
+    ca[3] = 0; sa[3] = 0;
+    htp_status_t rc = htp_conn_open(conn, has_c ? ca : NULL, cp, has_s ? sa : NULL, sp, has_ts ? &ts : NULL);
+    VASSERT(rc == HTP_OK || rc == HTP_ERROR, "OK or ERROR");
+    if (rc == HTP_OK) VASSERT((conn->client_addr != NULL) == (has_c != 0) && (conn->server_addr != NULL) == (has_s != 0), "OK: both addresses copied");
+#ifdef KNOWN_F_C18_CONN_OPEN
+    /* finding c18_conn_open: a failed server_addr copy frees client_addr but leaves the stale pointer behind */
+    if (rc == HTP_ERROR) conn->client_addr = NULL;
+#endif
+    htp_conn_close(conn, has_ts ? &ts : NULL);
+    htp_conn_destroy(conn);
+  }
+  CANARY(); }'''
+lem('c18_conn_open', ['htp_connection.c'], CONN_H,
+    'htp_conn_create ; htp_conn_open ; htp_conn_close ; htp_conn_destroy: partial creation is undone, both address copies are freed exactly once whichever allocation fails, nothing leaks',
+    ['addresses: NULL or any C string of <= 3 characters; ports, timestamp arbitrary; real htp_list.c linked',
+     'the connection holds no transaction and no log message (htp_tx_destroy_incomplete asserted unreachable)',
+     'KNOWN_F_C18_CONN_OPEN: the harness NULLs conn->client_addr after an HTP_ERROR return (finding c18_conn_open); everything else is checked'],
+    defs={'KNOWN_F_C18_CONN_OPEN': 1}, link=['htp_list.c'], unwind=6, min_obl=30)
+
+# ======================================================================================================================
+# 4. multipart Content-Disposition ; htp_mpart_part_destroy
+# ======================================================================================================================
+CD_H = r'''
+static void cd_case(const unsigned char *a, int gave_up, int type) {          /* CDN is a constant */
+  htp_mpartp_t *parser = calloc(1, sizeof(*parser));
+  htp_multipart_part_t *part = calloc(1, sizeof(*part));
+  htp_header_t *h = calloc(1, sizeof(*h));
+  if (!parser || !part || !h) { free(parser); free(part); free(h); return; }
+  part->parser = parser; part->type = type;
+  part->headers = htp_table_create(4);                                         /* as htp_mpart_part_create */
+  h->name = bstr_dup_c("content-disposition"); h->value = c18_bstr(CDN, a);
+  if (!part->headers || !h->name || !h->value || htp_table_add(part->headers, h->name, h) != HTP_OK) {   /* as htp_mpartp_parse_header */
+    bstr_free(h->name); bstr_free(h->value); free(h); htp_mpart_part_destroy(part, 0); free(parser); return; }
+  htp_status_t rc = htp_mpart_part_parse_c_d(part);
+  VASSERT(rc == HTP_OK || rc == HTP_DECLINED || rc == HTP_ERROR, "OK, DECLINED or ERROR");
+#ifdef KNOWN_F_C18_MPART_CD_FILE
+  /* finding c18_mpart_cd_file: a failed filename copy frees part->file but leaves the stale pointer behind */
+  if (rc == HTP_ERROR && part->file != NULL && !__CPROVER_r_ok(part->file, sizeof(htp_file_t))) part->file = NULL;
+#endif
+  if (part->file != NULL) VASSERT(__CPROVER_r_ok(part->file, sizeof(htp_file_t)) && part->file->filename != NULL && part->file->fd == -1, "a file record, when present, is live and has a name");
+  htp_mpart_part_destroy(part, gave_up);                                        /* htp_mpartp_destroy: every part in the list */
+  free(parser);
+}
+void HARNESS(void) { unsigned char in[CDN]; int gave_up, type;
+  VASSUME(in[0] == 'f' && in[1] == 'o' && in[2] == 'r' && in[3] == 'm' && in[4] == '-' && in[5] == 'd' && in[6] == 'a' && in[7] == 't' && in[8] == 'a');
+  cd_case(in, gave_up, type); CANARY(); }'''
+lem('c18_mpart_cd', ['htp_multipart.c'], CD_H,
+    'htp_mpart_part_parse_c_d ; htp_mpart_part_destroy on a part built like htp_mpart_part_create/htp_mpartp_parse_header build it: name, file record and file name are freed exactly once whichever allocation fails and wherever the syntax check gives up; no leak',
+    ['C-D header value: "form-data" followed by every byte string of exactly CDN-9 bytes (room for name and filename parameters in either order, repeated and unknown parameters, broken quoting)',
+     'real htp_table.c, htp_list.c, bstr.c linked; part type and gave_up_data arbitrary',
+     'KNOWN_F_C18_MPART_CD_FILE: the harness NULLs part->file when it is a dead pointer after an HTP_ERROR return (finding c18_mpart_cd_file); everything else is checked'],
+    defs={'CDN': 31, 'KNOWN_F_C18_MPART_CD_FILE': 1}, link=['htp_table.c', 'htp_list.c', 'bstr.c'], unwind=33)
